@@ -24,6 +24,7 @@
 #include "ref/rfc5545.h"
 #include "ref/rrgram.h"
 #include "ref/rrgram_ext.h"
+#include "ref/strmfollow.h"
 #include "scale.h"
 
 #define KEEP	128
@@ -33,6 +34,9 @@ static int terms_full = 0;
 static long maxpops = 3000;
 static int pairs = 0;
 static int exts_on = 1;
+static double pop_budget = 0.2;
+
+static const echs_scale_t scale_of[] = {SCALE_GREGORIAN, SCALE_HIJRI_UMMULQURA, SCALE_HIJRI_IA, SCALE_HIJRI_DIYANET, SCALE_HIJRI_IVC};
 
 struct unit_s {
 	const struct rg_rule_s *g;
@@ -41,70 +45,9 @@ struct unit_s {
 	char rrule[384];	/* without termination */
 	int allday;
 	int64_t ts0;		/* DTSTART in the stream's frame */
-	char shape[224];
+	int last_year;		/* the stream is followed up to this Gregorian year */
+	char shape[224];	/* signature shape, see rx_shape() */
 };
-
-static const char*
-secs_str(char *buf, size_t bsz, int64_t s, int allday)
-{
-	rf_dt t = rf_from_secs(s, allday);
-	if (allday) {
-		snprintf(buf, bsz, "%04d-%02d-%02d", t.y, t.m, t.d);
-	} else {
-		snprintf(buf, bsz, "%04d-%02d-%02dT%02d:%02d:%02d", t.y, t.m, t.d, t.H, t.M, t.S);
-	}
-	return buf;
-}
-
-/* an instant as delivered by a stream -> seconds; 0 and *BAD set when it is no calendar time */
-static int64_t
-inst_secs(echs_instant_t i, int *bad)
-{
-	const int ad = echs_instant_all_day_p(i);
-	rf_dt t = {(int)i.y, (int)i.m, (int)i.d, ad ? 0 : (int)i.H, ad ? 0 : (int)i.M, ad ? 0 : (int)i.S, ad};
-
-	if (i.y < 1U || i.y > 4095U || i.m < 1U || i.m > 12U || i.d < 1U || (int)i.d > rf_mlen(t.y, t.m) ||
-	    (!ad && (i.H > 23U || i.M > 59U || i.S > 59U))) {
-		*bad = 1;
-		return 0;
-	}
-	return rf_secs(t);
-}
-
-static echs_task_t
-mktask(const char *dtline, const char *rrule, const char *term)
-{
-	char body[1024], text[1536];
-
-	if (rrule != NULL) {
-		snprintf(body, sizeof(body), "%s\nRRULE:%s%s\n", dtline, rrule, term);
-	} else {
-		snprintf(body, sizeof(body), "%s\n", dtline);
-	}
-	ical_wrap(text, sizeof(text), "c16@verif", body);
-	return ical_task1(text);
-}
-
-/* first occurrence of the event that has only this DTSTART line: DTSTART in the stream frame */
-static int
-dtstart_frame(const char *dtline, int64_t *ts0, int *allday)
-{
-	echs_task_t t = mktask(dtline, NULL, "");
-	int ok = 0, bad = 0;
-
-	if (t != NULL && t->strm != NULL) {
-		echs_event_t e = echs_evstrm_pop(t->strm);
-		if (!echs_nul_event_p(e)) {
-			*ts0 = inst_secs(e.from, &bad);
-			*allday = echs_instant_all_day_p(e.from);
-			ok = !bad;
-		}
-	}
-	if (t) {
-		free_echs_task(t);
-	}
-	return ok;
-}
 
 struct term_s {
 	const char *name;
@@ -120,23 +63,26 @@ static const struct term_s terms_all[] = {
 	{"COUNT", 130, 0, 0}, {"UNTIL-on", 0, 1, 3}, {"UNTIL-before", 0, 2, 3}, {"UNTIL-on", 0, 1, 99}, {"UNTIL-before", 0, 2, 99},
 };
 
-/* follow one stream; returns the number of occurrences seen, first KEEP of them in OUT */
+/* follow one stream; returns the number of occurrences seen, first KEEP of them in OUT.
+ * *ENDED: 1 the stream ended by itself, 2 left at year 2100, 3 a pop did not answer within
+ * the budget (termination is C09's subject; the stream is abandoned and counted). */
 static long
 follow(const struct unit_s *u, const struct term_s *tm, const char *term, int has_until, int64_t until,
        long pops, int64_t *out, int *ended)
 {
 	char sig[320], b1[32], b2[32];
-	echs_task_t t;
-	long n = 0;
+	static echs_task_t t;
+	static volatile long n;
 	int64_t prev = INT64_MIN;
 	int prev_ad = 0;
 	int r_order = 0, r_before = 0, r_until = 0, r_count = 0, r_malf = 0;
 
 	vd_sh->evals++;
 	vd_desc("%s RRULE:%s%s", u->dtline, u->rrule, term);
-	vd_shape("%s/%s/%s", u->g->shape, tm->name, u->x->tag);
+	vd_shape("%s/%s/%s", u->shape, tm->name, u->x->tag);
 	*ended = 0;
-	if ((t = mktask(u->dtline, u->rrule, term)) == NULL || t->strm == NULL) {
+	n = 0;
+	if ((t = sf_mktask(u->dtline, u->rrule, term, NULL)) == NULL || t->strm == NULL) {
 		/* not an event echse accepts */
 		vd_count("not_accepted", 1);
 		if (t) {
@@ -144,23 +90,36 @@ follow(const struct unit_s *u, const struct term_s *tm, const char *term, int ha
 		}
 		return -1;
 	}
+	if (sigsetjmp(sf_jmp, 0)) {
+		/* no answer: leave the stream alone (its state is unknown), C09 judges termination */
+		vd_count("abandoned_no_answer_within_budget", 1);
+		if (getenv("C16_DEBUG")) {
+			fprintf(stderr, "ABANDON %s\n", vd_sh->desc);
+		}
+		*ended = 3;
+		return n;
+	}
+	sf_arm(pop_budget);
 	while (n < pops) {
 		echs_event_t e = echs_evstrm_pop(t->strm);
 		int bad = 0;
 		int64_t s;
 
+		sf_progress++;
 		if (echs_nul_event_p(e)) {
 			*ended = 1;
 			break;
 		}
-		if (!(n & 0x3ff)) {
-			vd_beat();
+		if (e.from.y > (unsigned)u->last_year && e.from.y < 4096U) {
+			/* beyond the calendar range the code supports (leap years as y % 4; end of a table calendar): stop following */
+			*ended = 2;
+			break;
 		}
-		s = inst_secs(e.from, &bad);
+		s = sf_inst_secs(e.from, &bad);
 		if (bad) {
 			if (!r_malf++) {
-				snprintf(sig, sizeof(sig), "malformed/%s/%s/%s", u->g->shape, tm->name, u->x->tag);
-				vd_viol(sig, "occurrence %ld is no calendar time: y=%u m=%u d=%u H=%u M=%u S=%u (%#lx)", n,
+				snprintf(sig, sizeof(sig), "malformed/%s/%s", u->shape, u->x->tag);
+				vd_viol(sig, "occurrence %ld is no calendar time: y=%u m=%u d=%u H=%u M=%u S=%u (%#lx)", (long)n,
 					e.from.y, e.from.m, e.from.d, e.from.H, e.from.M, e.from.S, (unsigned long)e.from.u);
 			}
 			n++;
@@ -170,45 +129,49 @@ follow(const struct unit_s *u, const struct term_s *tm, const char *term, int ha
 			out[n] = s;
 		}
 		if (prev != INT64_MIN && s <= prev && !r_order++) {
-			snprintf(sig, sizeof(sig), "order/%s/%s/%s", u->g->shape, tm->name, u->x->tag);
-			vd_viol(sig, "occurrence %ld (%s) is not after occurrence %ld (%s)", n,
-				secs_str(b1, sizeof(b1), s, echs_instant_all_day_p(e.from)), n - 1, secs_str(b2, sizeof(b2), prev, prev_ad));
+			/* equal or earlier; at a refill boundary (63 delivered per refill) or inside a batch */
+			snprintf(sig, sizeof(sig), "order-%s/%s/%s/%s", s == prev ? "dup" : "inv", u->shape,
+				 n % 63 ? "inner" : "refill", u->x->tag);
+			vd_viol(sig, "occurrence %ld (%s) is not after occurrence %ld (%s)", (long)n,
+				sf_secs_str(b1, sizeof(b1), s, echs_instant_all_day_p(e.from)), (long)n - 1, sf_secs_str(b2, sizeof(b2), prev, prev_ad));
 		}
 		if (s < u->ts0 && !r_before++) {
-			snprintf(sig, sizeof(sig), "before-dtstart/%s/%s/%s", u->g->shape, tm->name, u->x->tag);
-			vd_viol(sig, "occurrence %ld (%s) lies before DTSTART (%s)", n,
-				secs_str(b1, sizeof(b1), s, echs_instant_all_day_p(e.from)), secs_str(b2, sizeof(b2), u->ts0, u->allday));
+			snprintf(sig, sizeof(sig), "before-dtstart/%s/%s", u->shape, u->x->tag);
+			vd_viol(sig, "occurrence %ld (%s) lies before DTSTART (%s)", (long)n,
+				sf_secs_str(b1, sizeof(b1), s, echs_instant_all_day_p(e.from)), sf_secs_str(b2, sizeof(b2), u->ts0, u->allday));
 		}
 		if (has_until && s > until && !r_until++) {
-			snprintf(sig, sizeof(sig), "until/%s/%s/%s", u->g->shape, tm->name, u->x->tag);
-			vd_viol(sig, "occurrence %ld (%s) lies after UNTIL (%s)", n,
-				secs_str(b1, sizeof(b1), s, echs_instant_all_day_p(e.from)), secs_str(b2, sizeof(b2), until, u->allday));
+			snprintf(sig, sizeof(sig), "until/%s/%s", u->shape, u->x->tag);
+			vd_viol(sig, "occurrence %ld (%s) lies after UNTIL (%s)", (long)n,
+				sf_secs_str(b1, sizeof(b1), s, echs_instant_all_day_p(e.from)), sf_secs_str(b2, sizeof(b2), until, u->allday));
 		}
 		prev = s;
 		prev_ad = echs_instant_all_day_p(e.from);
 		n++;
 		if (tm->count && n > tm->count && !r_count++) {
-			snprintf(sig, sizeof(sig), "count/%s/%s/%s", u->g->shape, tm->name, u->x->tag);
-			vd_viol(sig, "occurrence number %ld (%s) of a rule with COUNT=%d", n,
-				secs_str(b1, sizeof(b1), s, prev_ad), tm->count);
+			snprintf(sig, sizeof(sig), "count/%s/%s", u->shape, u->x->tag);
+			vd_viol(sig, "occurrence number %ld (%s) of a rule with COUNT=%d", (long)n,
+				sf_secs_str(b1, sizeof(b1), s, prev_ad), tm->count);
 			/* no point in listing the rest */
 			break;
 		}
 	}
-	if (*ended) {
+	if (*ended == 1) {
 		for (int i = 0; i < 3; i++) {
 			echs_event_t p = echs_evstrm_next(t->strm);
 			echs_event_t e = echs_evstrm_pop(t->strm);
+			sf_progress++;
 			if (!echs_nul_event_p(p) || !echs_nul_event_p(e)) {
 				int bad = 0;
-				int64_t s = inst_secs(echs_nul_event_p(e) ? p.from : e.from, &bad);
-				snprintf(sig, sizeof(sig), "resurrect/%s/%s/%s", u->g->shape, tm->name, u->x->tag);
-				vd_viol(sig, "after the end of the stream (%ld occurrences) call %d yields %s again", n, i + 1,
-					bad ? "(malformed)" : secs_str(b1, sizeof(b1), s, 0));
+				int64_t s = sf_inst_secs(echs_nul_event_p(e) ? p.from : e.from, &bad);
+				snprintf(sig, sizeof(sig), "resurrect/%s/%s/%s", u->shape, tm->name, u->x->tag);
+				vd_viol(sig, "after the end of the stream (%ld occurrences) call %d yields %s again", (long)n, i + 1,
+					bad ? "(malformed)" : sf_secs_str(b1, sizeof(b1), s, 0));
 				break;
 			}
 		}
 	}
+	sf_disarm();
 	free_echs_task(t);
 	return n;
 }
@@ -229,12 +192,18 @@ tz_poison(const struct unit_s *u, int64_t dt_utc)
 	}
 	rx_dtdigits(dig, sizeof(dig), f, 0);
 	snprintf(dtline, sizeof(dtline), "DTSTART:%s", dig);
-	if ((t = mktask(dtline, u->rrule, "")) == NULL || t->strm == NULL) {
+	if ((t = sf_mktask(dtline, u->rrule, "", NULL)) == NULL || t->strm == NULL) {
 		if (t) free_echs_task(t);
 		return 1;
 	}
+	if (sigsetjmp(sf_jmp, 0)) {
+		/* the floating twin does not answer either: the case is C09's */
+		return 1;
+	}
+	sf_arm(pop_budget);
 	for (long n = 0; n < maxpops + 130; n++) {
 		echs_event_t e = echs_evstrm_pop(t->strm);
+		sf_progress++;
 		if (echs_nul_event_p(e) || e.from.y > 2038U) {
 			break;
 		}
@@ -244,6 +213,7 @@ tz_poison(const struct unit_s *u, int64_t dt_utc)
 			break;
 		}
 	}
+	sf_disarm();
 	free_echs_task(t);
 	return hit;
 }
@@ -280,7 +250,7 @@ run_unit(struct unit_s *u)
 						     .H = u->allday ? ECHS_ALL_DAY : (unsigned)ut.H, .M = (unsigned)ut.M, .S = (unsigned)ut.S,
 						     .ms = u->allday ? 0 : ECHS_ALL_SEC};
 				echs_instant_t hi = echs_instant_detach_scale(
-					echs_instant_rescale(gi, (echs_scale_t)(u->x->scale == 1 ? SCALE_HIJRI_UMMULQURA : u->x->scale == 2 ? SCALE_HIJRI_IA : SCALE_HIJRI_DIYANET)));
+					echs_instant_rescale(gi, scale_of[u->x->scale]));
 				if (echs_nul_instant_p(hi)) {
 					vd_count("skipped_until_outside_scale", 1);
 					continue;
@@ -295,7 +265,7 @@ run_unit(struct unit_s *u)
 		n = follow(u, tm, term, tm->until != 0, until, tm->count || tm->until ? (tm->count > 200 ? tm->count + 8 : 208) : maxpops,
 			   k == 0 ? occ : NULL, &ended);
 		if (k == 0) {
-			if (n < 0) {
+			if (n < 0 || ended == 3) {
 				return;
 			}
 			nocc = n > KEEP ? KEEP : n;
@@ -304,13 +274,13 @@ run_unit(struct unit_s *u)
 			}
 			vd_count("occurrences_followed", n);
 			if (ended) {
-				vd_count("streams_ended_by_themselves", 1);
+				vd_count(ended == 1 ? "streams_ended_by_themselves" : "streams_left_at_year_2100", 1);
 			}
 			if (vd_want_sample()) {
 				char b1[32], b2[32];
 				vd_sample("%s RRULE:%s -> %ld occurrences%s, first %s, %ld-th %s", u->dtline, u->rrule, n,
-					  ended ? " (stream ended)" : "", n ? secs_str(b1, sizeof(b1), occ[0], u->allday) : "-",
-					  nocc, nocc ? secs_str(b2, sizeof(b2), occ[nocc - 1], u->allday) : "-");
+					  ended == 1 ? " (stream ended)" : ended ? " (up to 2099)" : "", n ? sf_secs_str(b1, sizeof(b1), occ[0], u->allday) : "-",
+					  nocc, nocc ? sf_secs_str(b2, sizeof(b2), occ[nocc - 1], u->allday) : "-");
 			}
 		}
 	}
@@ -345,19 +315,40 @@ try_unit(const struct rg_rule_s *g, const struct rx_ext_s *x, rf_dt an, int hijr
 	snprintf(u.dtline, sizeof(u.dtline), "DTSTART%s%s:%s", an.allday ? ";VALUE=DATE" : "",
 		 x->scale && !hijri_digits ? "" : x->dtpar, dig);
 	snprintf(u.rrule, sizeof(u.rrule), "%s%s", g->text, x->rpart);
-	snprintf(u.shape, sizeof(u.shape), "%s/%s", g->shape, x->tag);
+	rx_shape(u.shape, sizeof(u.shape), g, x);
 	vd_desc("%s RRULE:%s", u.dtline, u.rrule);
-	vd_shape("%s/none/%s", g->shape, x->tag);
-	if (!dtstart_frame(u.dtline, &u.ts0, &ad)) {
+	vd_shape("%s/none/%s", u.shape, x->tag);
+	if (!sf_dtstart_frame(u.dtline, &u.ts0, &ad, NULL)) {
 		/* DTSTART itself is not accepted (e.g. outside a table calendar) */
 		vd_count("skipped_dtstart_not_accepted", 1);
 		return;
 	}
 	u.allday = ad;
+	u.last_year = x->zone >= 0 ? 2036 : 2099;	/* zone files end in 2037 (32-bit data); beyond is C07's */
+	if (rx_scale[x->scale].last_year) {
+		const int y0 = rf_from_secs(u.ts0, 0).y;
+		if (y0 < rx_scale[x->scale].first_year || y0 >= rx_scale[x->scale].last_year) {
+			vd_count("skipped_dtstart_outside_table_calendar", 1);
+			return;
+		}
+		u.last_year = rx_scale[x->scale].last_year;
+	}
 	if (!x->scale && x->zone < 0 && (u.ts0 != rf_secs(an) || ad != an.allday)) {
 		/* the driver's own arithmetic and the parser disagree on a plain DTSTART: harness bug */
 		fprintf(stderr, "c16: DTSTART frame mismatch for %s\n", u.dtline);
 		abort();
+	}
+	if (g->freq >= RF_HOURLY || (g->freq == RF_DAILY && !x->scale)) {
+		/* A rule whose set is empty (FREQ=HOURLY;INTERVAL=2;BYHOUR=9 from 10:30) is C09's subject:
+		 * the sub-daily and daily expansions do not return for it.  Predicted with the reference
+		 * evaluator on the stream's own frame; whatever slips through meets the watchdog. */
+		static int64_t one[2];
+		int ambig = 0, trunc = 0;
+		rf_dt t0 = rf_from_secs(u.ts0, ad);
+		if (!rf_eval(&g->ref, t0, u.ts0 + rg_window(g->freq), one, 1, &ambig, &trunc)) {
+			vd_count("skipped_empty_in_window", 1);
+			return;
+		}
 	}
 	if (x->zone >= 0 && tz_poison(&u, u.ts0)) {
 		vd_count("skipped_tz_last_transition", 1);
@@ -420,6 +411,8 @@ enumerate(void)
 	maxpops = vd_opt_l("pops", 3000);
 	pairs = (int)vd_opt_l("pairs", 0);
 	exts_on = strcmp(vd_opt("exts", "all"), "none");
+	pop_budget = strtod(vd_opt("budget", "0.2"), NULL);
+	sf_init();
 	rg_enumerate(&c, per_rule, NULL);
 }
 
